@@ -90,8 +90,12 @@ Fixpoint xcode_more (c : cfg) (fuel : nat) (needMore : bool) (r : reader) (maxCh
         match refresh_raw c r with
         | Err e => Err e
         | Ok r1 =>
-          (* if (fRawBytesAvail == 0 || (needMode && bytesLeft == fRawBytesAvail - fRawBufIndex)) return 0; *)
-          Ok (r1, Nat.eqb (length (rcur r1)) 0 || (needMore && Nat.eqb left (length (rcur r1))))
+          (* if (fRawBytesAvail == 0) return 0;
+             if (needMode && bytesLeft == fRawBytesAvail - fRawBufIndex) throw TranscodingException(Trans_BadSrcSeq);
+             -- the input ends inside a multi-byte sequence (repair of finding F2) *)
+          if Nat.eqb (length (rcur r1)) 0 then Ok (r1, true)
+          else if needMore && Nat.eqb left (length (rcur r1)) then Err (XErr E_Trans_BadSrcSeq)
+          else Ok (r1, false)
         end
       else Ok (r, false) in
     match pre with
@@ -113,7 +117,9 @@ Fixpoint xcode_more (c : cfg) (fuel : nat) (needMore : bool) (r : reader) (maxCh
 Definition refresh_char (c : cfg) (r : reader) : res (reader * bool) rerr :=
   if noMore r then Ok (r, false) else
   let spare := length (ccur r) in                                  (* fCharsAvail - fCharIndex *)
-  if Nat.eqb spare (cbsz c) then Ok (r, true) else
+  (* "if (spareChars + 1 >= kCharBufSize) return true;": a buffer with one free slot counts as full (a surrogate pair could
+     not be stored); proposed repair fixes/C04-longname-pair-room.patch, finding FC *)
+  if Nat.leb (cbsz c) (S spare) then Ok (r, true) else
   if Nat.ltb (cbsz c) spare then Err Fault else                    (* kCharBufSize - spareChars wraps *)
   match xcode_more c (S (S (rbsz c))) false r (cbsz c - spare) with
   | Err e => Err e
@@ -247,8 +253,10 @@ Definition skipped_char (c : cfg) (r : reader) (toSkip : N) : res (reader * bool
     end
   end.
 
-(** the test "(curCh & (chCR|chLF) & ~(0x9|0x20)) == 0" of the whitespace paths: 0x6 mask *)
-Definition ws_plain (ch : N) : bool := N.land ch 0x6 =? 0.
+(** the test "curCh == chSpace || curCh == chHTab" of the white-space paths (since /repo ed42853; it was the bit test
+    "(curCh & (chCR|chLF) & ~(0x9|0x20)) == 0", which also took U+2028 -- white space and a line end in XML 1.1 -- for a
+    plain blank); every other white-space character goes through handleEOL *)
+Definition ws_plain (ch : N) : bool := (ch =? 0x20) || (ch =? 0x9).
 
 (** XMLReader::skippedSpace *)
 Definition skipped_space (c : cfg) (r : reader) : res (reader * bool) rerr :=
